@@ -49,9 +49,15 @@ Definition PX := list tok -> pres (expr * list tok).
 
 Inductive ios := IIndex (e : expr) | ISlice (s e st : option expr).
 
-(* parse_slice: the first colon, optional end, optional (colon, optional step) *)
+(* parse_slice (after /repo 974c053): a single `::` token means "no end", then an optional step;
+   otherwise the first colon, optional end, optional (colon, optional step) *)
 Definition pslice (pex : PX) (start : option expr) (ts : list tok) : pres (ios * list tok) :=
   match ts with
+  | TPu PColonColon :: t1 =>
+      match t1 with
+      | TPu PRBracket :: _ => POk (ISlice start None None, t1)
+      | _ => bind (pex t1) (fun r => POk (ISlice start None (Some (fst r)), snd r))
+      end
   | TPu PColon :: t1 =>
       bind (match t1 with
             | TPu PRBracket :: _ | TPu PColon :: _ => POk (None, t1)
@@ -72,11 +78,11 @@ Definition pslice (pex : PX) (start : option expr) (ts : list tok) : pres (ios *
 (* index_or_slice *)
 Definition pindex (pex : PX) (ts : list tok) : pres (ios * list tok) :=
   match ts with
-  | TPu PColon :: _ => pslice pex None ts
+  | TPu PColon :: _ | TPu PColonColon :: _ => pslice pex None ts
   | TPu PRBracket :: _ => PErr
   | _ => bind (pex ts) (fun r =>
            match snd r with
-           | TPu PColon :: _ => pslice pex (Some (fst r)) (snd r)
+           | TPu PColon :: _ | TPu PColonColon :: _ => pslice pex (Some (fst r)) (snd r)
            | t1 => POk (IIndex (fst r), t1)
            end)
   end.
